@@ -1,9 +1,9 @@
-(* Properties/C01_src.v — Parse and ParseAttributes as written decode exactly the wire format of Spec/C01.v, for all byte strings.
+(* Properties/C01_src.v — Parse, ParseAttributes, MarshalBinary, AttributesEncodedLen and encodeTo as written are the wire format of Spec/C01.v, for all byte strings and packets.
    Statements about the translation of the Go source itself (Gen/Src.v, regenerated from
    /repo on every run by srcfacts/golite.go) under the interpreter of Base/GoLite.v.  [fn t] is the
    translated function, or a function that panics at once when the translator refused it. *)
 From Coq Require Import String.
-From Radius Require Import Base.Bytes Base.Res Base.GoLite Gen.Src Model.SrcRun Proofs.SrcBase Proofs.SrcCtx Model.Attrs Spec.C01 Proofs.SrcAttrs Proofs.SrcParse.
+From Radius Require Import Base.Bytes Base.Res Base.Guard Base.GoLite Gen.Src Crypto.MD5 Model.SrcRun Proofs.SrcBase Proofs.SrcCtx Model.Attrs Spec.C09 Spec.C01 Proofs.SrcAttrs Proofs.SrcParse Proofs.SrcMarshal.
 Open Scope list_scope.
 Open Scope nat_scope.
 
@@ -18,3 +18,43 @@ Theorem C01_program_Parse : forall fuel b secret,
   src_run "Parse" fuel [VBytes b; secret] = parse_result b secret.
 Proof. exact program_Parse. Qed.
 Print Assumptions C01_program_Parse.
+
+Theorem C01_src_AttributesEncodedLen_spec : forall cx n vl,
+  Forall is_avp vl -> length vl < n ->
+  run cx n (fn src_AttributesEncodedLen) [VList vl] = Some (Some (enclen_result vl)).
+Proof. exact src_AttributesEncodedLen_spec. Qed.
+Print Assumptions C01_src_AttributesEncodedLen_spec.
+
+Theorem C01_src_encodeTo_spec : forall cx n vl buf,
+  Forall is_avp vl -> length vl < n ->
+  forallb v_fits vl = true -> length (vwire vl) <= length buf ->
+  run cx n (fn src_Attributes_encodeTo) [VList vl; VBytes buf] =
+  Some (Some (VTup [VBytes (vwire vl ++ skipn (length (vwire vl)) buf)])).
+Proof. exact src_encodeTo_spec. Qed.
+Print Assumptions C01_src_encodeTo_spec.
+
+Theorem C01_vwire_abs : forall vl,
+  Forall is_avp vl -> vwire vl = spec_wire (abs_attrs vl).
+Proof. exact vwire_abs. Qed.
+Print Assumptions C01_vwire_abs.
+
+Theorem C01_fits_abs : forall vl,
+  Forall is_avp vl -> forallb v_fits vl = forallb spec_value_fits (abs_attrs vl).
+Proof. exact fits_abs. Qed.
+Print Assumptions C01_fits_abs.
+
+Theorem C01_marshal_result_spec : forall c i auth vl,
+  Forall is_avp vl -> (0 <= i)%Z ->
+  marshal_result c i auth vl =
+  match spec_marshal c (Z.to_N i) auth (abs_attrs vl) with
+  | Ok w => VTup [VBytes w; VNil]
+  | _ => VTup [VNil; VErr]
+  end.
+Proof. exact marshal_result_spec. Qed.
+Print Assumptions C01_marshal_result_spec.
+
+Theorem C01_program_MarshalBinary : forall fuel c i auth secret vl,
+  Forall is_avp vl -> length vl < fuel -> (0 <= i < 256)%Z -> length auth = 16 ->
+  src_run "Packet.MarshalBinary" fuel [vpacket c i auth secret vl] = Some (Some (marshal_result c i auth vl)).
+Proof. exact program_MarshalBinary. Qed.
+Print Assumptions C01_program_MarshalBinary.
